@@ -152,9 +152,11 @@ def _extract_omega_delta_phi(
             pchip = PCHIP1D(t_grid, signal.real)
             data_mid[:, q_pos] = pchip(t_mid)
             if name == "amp":
-                data_mid[-1, q_pos] = torch.where(
-                    data_mid[-1, q_pos] > 0,
-                    data_mid[-1, q_pos],
+                # the interpolant can undershoot, in particular for every midpoint
+                # past the last Pulser sample (extrapolation): amplitudes are >= 0
+                data_mid[:, q_pos] = torch.where(
+                    data_mid[:, q_pos] > 0,
+                    data_mid[:, q_pos],
                     0,
                 )
 
